@@ -338,7 +338,7 @@ func evConstBool(v ssa.Value) int {
 func checkC06(c *Ctx) {
 	r, p := c.R, c.P
 	r.Explanation = "Decides structural necessary conditions of C06 on events/queue, over the events of the mechanism along every path of the exported entry points and of the loop goroutine with all same-package helpers inlined (constructs resolved by role, not by unexported name): (Q1) the queue field of Processor is only used with the Processor mutex held; (Q2) atomic exit: on every path of the loop goroutine, between observing the queue empty (Peek's ok result false) under the lock and giving up the running token the lock is never released — otherwise an Enqueue in that window finds the loop 'still running' and its item is stranded — and every exit gives the token up exactly once; (Q3) an item is popped only in the critical section in which the head was re-checked to be the very item the loop decided on (object identity), and the callback receives the popped value; (Q4) Close waits for the loop goroutine on every path and, on the path that wins the stopped flag, closes the stop channel and then takes the running token; the loop goroutine is started only on a path that took the token, after wg.Add, and calls wg.Done on every exit; (Q5) the item popped is one established due: on a branch that bounds ScheduledTime().Sub(clock.Now()) by at most 500µs — written on the Duration itself, through its Nanoseconds/Microseconds/Milliseconds/Seconds/Minutes/Hours accessors, int64(d) or d/unit (truncation accounted for: d.Milliseconds() < 1 admits 999999 ns), or as Before/After against clock.Now().Add(K) — or after the timer armed with that same duration fired; (Q6) Enqueue inserts with replace=true and on every path attempts to take the token (start the loop) under the lock afterwards; when the token is not available a reset signal can be posted, and a path that posts none has, after the insert and still under the lock, peeked the head and found it is not the inserted item (object identity; evidence of another kind about the item — its scheduled time, an opaque predicate — leaves this undecided); (Q7) the heap orders by scheduled time ascending through a comparison that is order-isomorphic to the instant (Before/After/Compare/Sub/UnixNano; the truncating Unix/UnixMilli/UnixMicro are reported); (Q8) the token/reset channels have one slot, and a received reset leads to a fresh Peek before anything is armed, popped or executed; every wait on the item's timer also listens for the reset signal. NOT decided: exactly-once / ordering over all histories, timer accuracy, Dequeue's head-change signalling."
-	r.Assumptions = append(r.Assumptions, "type-based lock and channel identity", "container/heap implements a min-heap over Less", "helpers are followed through static calls, defer and go of functions of the same package; function values stored in variables are not followed")
+	r.Assumptions = append(r.Assumptions, "type-based lock and channel identity", "container/heap implements a min-heap over Less", "calls are followed through static calls, defer and go of same-package functions and through function values whose target is visible in the package (closure parameters, locals and captured cells, bound method values, literal slices of steps up to 8 entries, func-typed fields assigned once, single-implementation unexported interfaces, sync.Once.Do); other dynamic calls are not followed and turn absence claims into UNDECIDED")
 	r.Rule("C06.Q1-guard", "the Processor's queue only under the Processor's mutex", 3)
 	r.Rule("C06.Q2-atomic-exit", "no unlock between 'queue empty' and release of the running token; token released exactly once per exit", 2)
 	r.Rule("C06.Q3-execute", "Pop in the same critical section as the head re-check; callback gets the popped value", 2)
